@@ -284,11 +284,12 @@ func genBreaker() string {
 			}
 			fmt.Fprintf(&sb, "def Breaker.%s (s : BreakerSt)%s : %s :=\n%s\n", mm.name, mm.params, rt, body)
 		})
+		noteTie("Breaker.lean", item, ok)
 		if !ok {
 			if fd == nil {
 				addProblem(item, "method not found")
 			}
-			fmt.Fprintf(&sb, "-- BROKEN: %s could not be translated\n\n", item)
+			sb.WriteString(fallbackText("Breaker.lean", "Breaker."+mm.name))
 		}
 	}
 	// the exported wrappers must be the plain delegations the model assumes
@@ -308,11 +309,13 @@ func genBreaker() string {
 			}
 			good = call != nil && strings.HasSuffix(selString(call.Fun), "."+w[1]) && len(call.Args) == 0
 		}
+		noteTie("Breaker.lean", item, good)
 		if !good {
 			addProblem(item, "exported wrapper is not a plain delegation to %s", w[1])
 		}
 		fmt.Fprintf(&sb, "def Breaker.wrapper_%s_delegates : Bool := %v\n", w[0], good)
 	}
+	sb.WriteString(tieText("Breaker.lean", "breaker"))
 	sb.WriteString("\nend Rpcx.Gen\n")
 	return sb.String()
 }
